@@ -89,9 +89,11 @@ let () =
               match m with
               | Ok (_, Some _) ->
                 let dp = V.html_unescape p in
-                ok id (if int_of_n cls = 2 then "+tru_escaped" else if V.has_qf dp then "+query_escaped"
-                       else if V.opt_bytes_eqb (V.uri_authority (dp @ data)) (V.uri_authority dp) then "+normalised"
-                       else "+normalised_authority_not_fixed")
+                if int_of_n cls = 2 then ok id "+tru_escaped" else if V.has_qf dp then ok id "+query_escaped"
+                else if V.opt_bytes_eqb (V.uri_authority (dp @ V.normalize_url data)) (V.uri_authority dp) then ok id "+normalised"
+                else
+                  (* the data became (part of) the authority: it left the component the author put it in *)
+                  specfail id "data_after_path_or_scheme_prefix_became_the_authority\tfinding=D26"
               | Ok (_, None) -> ok id "+rejected_at_execution"
               | Error _ -> ok id (if V.must_reject V.html_unescape p then "reject_required" else "reject")
       end);
